@@ -40,7 +40,18 @@ def run(d):
                 r = security.decrypt(s, b("title"), d["ic"], b("key"), b("x"), b("ak"))
             elif k == "tamper-apdu":
                 from dlms_cosem.protocol import xdlms
-                r = xdlms.GeneralGlobalCipher(b("title"), s, d["ic"], b("x")).to_plain_apdu(b("key"), b("ak"))
+                if d.get("good"):
+                    # one APDU object: first opened with the genuine parameters, then - the same object - asked again after
+                    # the text / title / counter were altered or with altered keys
+                    g0 = d["good"]
+                    g = xdlms.GeneralGlobalCipher(bytes.fromhex(g0["title"]), sc_obj(g0["sc"]), g0["ic"], bytes.fromhex(g0["x"]))
+                    first = g.to_plain_apdu(bytes.fromhex(g0["key"]), bytes.fromhex(g0["ak"]))
+                    if bytes(first) != bytes.fromhex(g0["pt"]):
+                        return "data | genuine-text-opened-to " + hx(first)
+                    g.system_title, g.security_control, g.invocation_counter, g.ciphered_text = b("title"), s, d["ic"], b("x")
+                    r = g.to_plain_apdu(b("key"), b("ak"))
+                else:
+                    r = xdlms.GeneralGlobalCipher(b("title"), s, d["ic"], b("x")).to_plain_apdu(b("key"), b("ak"))
             elif k == "tamper-conn":
                 from dlms_cosem.connection import DlmsConnection
                 conn = DlmsConnection(client_system_title=b"CLIENT01", global_encryption_key=b("key"), global_authentication_key=b("ak"),
@@ -182,6 +193,28 @@ class C05(fw.Prop):
             p = params()
             yield mk(dict(k="enc", x="0102", tag="title-length", **{**p, "title": hx(rb(n))}))
             yield mk(dict(k="dec", x=hx(rb(30)), tag="title-length", **{**p, "title": hx(rb(n))}))
+        # texts made outside the library under a nonce built from a title that is not 8 bytes: refused, never opened
+        for n in list(range(0, 8)) + list(range(9, 17)):
+            p = params()
+            t = rb(n)
+            iv = t + p["ic"].to_bytes(4, "big")
+            if len(iv) < 8:
+                continue                      # (the package itself has no GCM for nonces that short)
+            ct = ref_gcm(bytes.fromhex(p["key"]), iv, bytes([p["sc"]]) + bytes.fromhex(p["ak"]), rb(13))
+            yield mk(dict(k="tamper", x=hx(ct), tag="title-length-text", **{**p, "title": hx(t)}))
+        # plaintexts whose protected text begins like a header (security control || counter, the general-glo tag and title
+        # length, the title): removal returns them like any other
+        for _ in range(12 if deep else 4):
+            p = params(scb=rng.choice([0x30, 0x31]) if rng.random() < 0.7 else None)
+            key, ak, title = bytes.fromhex(p["key"]), bytes.fromhex(p["ak"]), bytes.fromhex(p["title"])
+            iv, aad = title + p["ic"].to_bytes(4, "big"), bytes([p["sc"]]) + ak
+            for prefix in (bytes([p["sc"]]) + p["ic"].to_bytes(4, "big"), b"\xdb\x08" + title, title, bytes([p["sc"]]), bytes([p["sc"]]) + p["ic"].to_bytes(4, "big") + title):
+                ks = ref_gcm(key, iv, aad, bytes(len(prefix)))[:len(prefix)]
+                pt = bytes(a ^ c for a, c in zip(ks, prefix)) + rb(rng.choice([0, 1, 12, 30]))
+                ct = ref_gcm(key, iv, aad, pt)
+                assert ct.startswith(prefix)
+                yield mk(dict(k="enc", x=hx(pt), tag="header-like-text", **p))
+                yield mk(dict(k="dec", x=hx(ct), tag="header-like-text", via_apdu=(p["sc"] & 0x30 == 0x30), **p))
         for ic in (2 ** 32, 2 ** 32 + 1, 2 ** 40):
             yield mk(dict(k="enc", x="0102", tag="counter-range", **{**params(), "ic": ic}))
             yield mk(dict(k="dec", x=hx(rb(30)), tag="counter-range", **{**params(), "ic": ic}))
@@ -219,8 +252,8 @@ class C05(fw.Prop):
         for _ in range(300 if deep else 40):
             yield mk(dict(k="block", key=hx(rb(rng.choice([16, 32]))), x=hx(rb(16))))
         # fault enumeration on the real primitive
-        for _ in range(40 if deep else 3):
-            p = params()
+        for rep in range(40 if deep else 3):
+            p = params() if rep else params(scb=0x30 + rng.choice([0, 1]))
             pt = rb(rng.choice([0, 1, 15, 16, 17, 40]))
             s = sc_obj(p["sc"])
             title, key, ak = bytes.fromhex(p["title"]), bytes.fromhex(p["key"]), bytes.fromhex(p["ak"])
@@ -246,6 +279,14 @@ class C05(fw.Prop):
                         x = bytearray(val)
                         x[bit // 8] ^= 1 << (bit % 8)
                         yield mk(dict(k="tamper-apdu", x=hx(ct), tag=name + "-bitflip-apdu", **{**p, name: hx(x)}))
+                        yield mk(dict(k="tamper-apdu", x=hx(ct), tag=name + "-bitflip-apdu-reused", good=dict(x=hx(ct), pt=hx(pt), **p), **{**p, name: hx(x)}))
+                good = dict(x=hx(ct), pt=hx(pt), **p)
+                for bit in rng.sample(range(len(ct) * 8), 6):
+                    x = bytearray(ct)
+                    x[bit // 8] ^= 1 << (bit % 8)
+                    yield mk(dict(k="tamper-apdu", x=hx(x), tag="text-bitflip-apdu-reused", good=good, **p))
+                yield mk(dict(k="tamper-apdu", x=hx(ct[:-1]), tag="text-truncated-apdu-reused", good=good, **p))
+                yield mk(dict(k="tamper-apdu", x=hx(ct), tag="counter-apdu-reused", good=good, **{**p, "ic": p["ic"] ^ (1 << rng.randrange(32))}))
                 if p["sc"] == 0x30 + (p["sc"] & 15):
                     for bad_ic in sorted({0, p["ic"] ^ 1, p["ic"] ^ (1 << 31)} - {p["ic"]}):
                         yield mk(dict(k="tamper-conn", x=hx(ct), tag="counter-conn", remembered_title=p["title"], remembered_ic=p["ic"],
